@@ -877,6 +877,8 @@ impl Inner {
         let guard = authentication
             .authorize_with(&request, &self.access, &mut io)
             .await?;
+        #[cfg(feature = "verif-hooks")]
+        crate::verif_hooks::sched::pause("relay.accept.after_admit").await;
 
         trace!("accept: verified authorization");
 
